@@ -675,6 +675,18 @@ func checkMuxOutput(p *C14Params, md *muxModel, data []byte) *Violation {
 			return bad("chunk-lost:"+kind, "AddChunk(%q, %d bytes) returned nil but the assembled file has no such chunk (top-level chunks with other ids: %d)", u.id, len(u.data), len(wf.Unknown))
 		}
 	}
+	// ... and nothing else: a chunk nobody added is metadata that was not put in
+	for _, c := range wf.Unknown {
+		found := false
+		for _, u := range md.unknown {
+			if c.FourCC == u.id && sameBytes(c.Data, u.data) {
+				found = true
+			}
+		}
+		if !found {
+			return bad("chunk-invented:"+kind, "the assembled file has a chunk %q of %d bytes that no accepted AddChunk call put there", c.FourCC, len(c.Data))
+		}
+	}
 	// (2) the package's demuxer
 	dmx, err := mux.NewDemuxer(data)
 	if err != nil {
